@@ -1435,6 +1435,7 @@ def canonicalise(tree: ast.Module, rel: str = "") -> ast.Module:
         from . import canon
         canon.inline_fresh_structs(tree, ref)
         canon.inline_fresh_constants(tree, ref)
+        canon.rename_fresh_members(tree, ref)
         canon.inline_fresh_helpers(tree, ref)
         canon.rename_fresh_members(tree, ref)
         canon.restore_inlined_helpers(tree, ref)
